@@ -99,11 +99,60 @@ def _discharge(vc, timeout_ms, use_cvc5, keep_model, degraded):
         r1 = z3.unknown
     if r1 == z3.unsat:
         return Verdict(vc.name, "proved", "z3", time.time() - t0, meta=vc.meta, smt_size=len(s1.sexpr()))
+    if degraded and r1 == z3.unknown and (vc.meta or {}).get("_conjunct"):
+        for hops in (0, 1):
+            sub = _relevant(vc.pc, vc.goal, hops)
+            s0 = z3.Solver()
+            s0.set("timeout", timeout_ms)
+            for c in sub:
+                s0.add(c)
+            s0.add(z3.Not(vc.goal))
+            try:
+                if s0.check() == z3.unsat:
+                    return Verdict(vc.name, "proved", "z3", time.time() - t0, meta=vc.meta)
+            except z3.Z3Exception:
+                pass
+        return Verdict(vc.name, "unknown", "z3", time.time() - t0, reason="conjunct undecided", meta=vc.meta)
     if degraded and r1 == z3.unknown:
         m = _model_search(vc, s1, budget_s=2) if degraded == 1 else None
         if m is not None:
             return Verdict(vc.name, "refuted", "z3+enum", time.time() - t0, model=m if keep_model else None, meta=vc.meta)
         return Verdict(vc.name, "unknown", "z3", time.time() - t0, reason="short budget only: this run already has undecided obligations", meta=vc.meta)
+    if r1 == z3.unknown and z3.is_and(vc.goal) and vc.goal.num_args() > 1 and not (vc.meta or {}).get("_conjunct"):
+        # a conjunction the solver cannot decide as a whole: every conjunct on its own (each then gets its own
+        # relevance filtering); all proved => proved, otherwise fall through to the stages below for the whole goal
+        allp = True
+        flat, todo = [], list(vc.goal.children())
+        while todo:
+            g = todo.pop(0)
+            if z3.is_and(g):
+                todo = list(g.children()) + todo
+            else:
+                flat.append(g)
+        for g in flat:
+            sub = type(vc)(vc.name, vc.pc, g, dict(vc.meta or {}, _conjunct=True))
+            v = _discharge(sub, min(timeout_ms, 5000), False, False, 1)
+            if v.status != "proved":
+                allp = False
+                break
+        if allp:
+            return Verdict(vc.name, "proved", "z3", time.time() - t0, meta=vc.meta)
+    if r1 == z3.unknown:
+        # nonlinear real arithmetic mixed with integrality: abstract the nonlinear terms (sound for `unsat`)
+        try:
+            abst, n_repl = _nl_abstract(list(vc.pc) + [z3.Not(vc.goal)])
+        except z3.Z3Exception:
+            n_repl = 0
+        if n_repl:
+            sa = z3.Solver()
+            sa.set("timeout", 3000 if degraded else timeout_ms)
+            for c in abst:
+                sa.add(c)
+            try:
+                if sa.check() == z3.unsat:
+                    return Verdict(vc.name, "proved", "z3", time.time() - t0, meta=vc.meta, smt_size=len(sa.sexpr()))
+            except z3.Z3Exception:
+                pass
     if r1 == z3.unknown and use_cvc5:
         v = _cvc5(vc, s1, 5)
         if v is not None:
@@ -225,6 +274,57 @@ def _model_search(vc, solver, tries=160, per_ms=250, budget_s=45):
         solver.pop()
     return None
 
+
+
+# ----------------------------------------------------------------------------- nonlinear abstraction
+_NLMUL = z3.Function("nl_mul", z3.RealSort(), z3.RealSort(), z3.RealSort())
+_NLDIV = z3.Function("nl_div", z3.RealSort(), z3.RealSort(), z3.RealSort())
+
+
+def _nl_abstract(exprs):
+    """Replace products of two non-constant factors and quotients by a non-constant divisor (outside quantifiers) by
+    applications of uninterpreted functions.  Every model of the original formulas is a model of the abstraction
+    (interpret nl_mul / nl_div as * and /), so `unsat` of the abstraction proves `unsat` of the original.
+    Returns (abstracted formulas, number of replaced terms)."""
+    cache = {}
+    count = [0]
+
+    def num(e):
+        return z3.is_rational_value(e) or z3.is_int_value(e)
+
+    def go(e):
+        i = e.get_id()
+        if i in cache:
+            return cache[i]
+        if not z3.is_app(e) or z3.is_const(e):
+            cache[i] = e
+            return e
+        kids = [go(c) for c in e.children()]
+        k = e.decl().kind()
+        out = None
+        if k == z3.Z3_OP_MUL and z3.is_real(e):
+            consts = [c for c in kids if num(c)]
+            others = [c for c in kids if not num(c)]
+            if len(others) >= 2:
+                acc = others[0]
+                for o in others[1:]:
+                    acc = _NLMUL(acc, o)
+                    count[0] += 1
+                out = acc
+                for c in consts:
+                    out = c * out
+        elif k == z3.Z3_OP_DIV and z3.is_real(e) and not num(kids[1]):
+            out = _NLDIV(kids[0], kids[1])
+            count[0] += 1
+        if out is None:
+            try:
+                out = e.decl()(*kids) if kids else e
+            except z3.Z3Exception:
+                out = e
+        cache[i] = out
+        return out
+
+    return [go(x) for x in exprs], count[0]
 
 _sym_cache = {}
 
